@@ -38,8 +38,18 @@ def gen_cases(rng, tier):
             for d in dumps:
                 if d['mode'] != 'update':
                     d['mode'] = 'update'
-        cases.append({'kind': 'history', 'keys': keys, 'pk': pk, 'dumps': dumps, 'flags': rng.chance(0.5),
-                      'keys_always': rng.chance(0.5)})
+        c = {'kind': 'history', 'keys': keys, 'pk': pk, 'dumps': dumps, 'flags': rng.chance(0.5), 'keys_always': rng.chance(0.5)}
+        if rng.chance(0.3):
+            # the resource declares its own missing-value tokens, '' not among them: an empty string is then a value
+            # (in a key too) and must reach the table as such
+            c['mv'] = ['n/a']
+            for d in dumps:
+                for r in d['rows']:
+                    if rng.chance(0.3):
+                        r['v'] = ''
+                    if rng.chance(0.2):
+                        r['k2'] = ''
+        cases.append(c)
     for i in range(max(4, n // 8)):
         # array/object columns: the engine gets converted copies; pairing of written and original rows across batches
         # nested values the engine conversion turns into text (dates, decimals inside objects and arrays) must
@@ -94,7 +104,7 @@ def run_impl(case):
     fields = [{'name': 'k', 'type': 'integer'}, {'name': 'k2', 'type': 'string'}, {'name': 'v', 'type': 'string'}, {'name': 'n', 'type': 'integer'}]
     steps = []
     for d in case['dumps']:
-        res = [{'name': 'r', 'fields': fields, 'rows': d['rows'], 'pk': case['keys'] if case['pk'] else None}]
+        res = [{'name': 'r', 'fields': fields, 'rows': d['rows'], 'pk': case['keys'] if case['pk'] else None, 'missingValues': case.get('mv')}]
         spec = {'resource-name': 'r', 'mode': d['mode']}
         if (d['mode'] == 'update' or case.get('keys_always')) and not case['pk']:
             spec['update_keys'] = case['keys']      # the same table spec re-used while only the mode varies
